@@ -14,10 +14,12 @@ REGISTRY = {}
 
 # ============================================================================================== L1 (PFCP level)
 
-L1_MODULES = ["Mon.tla", "Upf.tla", "MC_Upf.tla"]
+L1_MODULES = ["Mon.tla", "Upf.tla", "MC_Upf.tla", "SeidAlloc.tla"]
 
 MC_COMMON = """SPECIFICATION Spec
 INVARIANT NoVerdict
+INVARIANT AllocInv
+PROPERTY AllocRefines
 VIEW View
 CHECK_DEADLOCK FALSE
 """
@@ -1240,6 +1242,57 @@ def check_c10_full(pid, replay=None):
 
 REGISTRY["C10"] = check_c10_full
 
+def alloc_proof():
+    """C04, issuing part: SeidAlloc.tla - inductive invariant with Apalache (histories of any length, capacity 6) and the
+    same invariants with TLC on all reachable states (capacity 5). A failure here is a defect of the specification."""
+    d = vlib.stage_spec(["SeidAlloc.tla", "SeidAllocInd.tla", "MC_SeidAlloc.tla"], "alloc")
+    with open(os.path.join(d, "MC.cfg"), "w") as fh:
+        fh.write("SPECIFICATION Spec\nCONSTANT N = 5\nINVARIANT IndInv\nPROPERTY IssueOkProp\nCHECK_DEADLOCK FALSE\n")
+    p = subprocess.run(["tlc", "-workers", "4", "-metadir", os.path.join(d, "md"), "-config", "MC.cfg", "MC_SeidAlloc.tla"], cwd=d, env=vlib._tlc_env(),
+                       stdout=subprocess.PIPE, stderr=subprocess.STDOUT, text=True, timeout=900)
+    m = re.search(r"(\d+) states generated, (\d+) distinct states found", p.stdout)
+    if p.returncode != 0 or "No error has been found" not in p.stdout or not m:
+        raise Infra("TLC on SeidAlloc failed:\n" + p.stdout[-2500:])
+    res = {"tlc_distinct": int(m.group(2)), "tlc_generated": int(m.group(1)), "apalache": []}
+    obligations = [("base: Init => IndInv", "Init", "IndInv", 0), ("step: IndInv /\\ Next => IndInv'", "IndInit", "IndInv", 1),
+                   ("action: IndInv /\\ Next => IssueOk", "IndInit", "IssueOk", 1)]
+
+    def one(ob):
+        name, init, inv, length = ob
+        out = os.path.join(d, "ap-%s-%s" % (init, inv))
+        q = subprocess.run(["apalache-mc", "check", "--out-dir=" + out, "--cinit=CInit", "--init=" + init, "--inv=" + inv, "--length=%d" % length,
+                            "SeidAllocInd.tla"], cwd=d, stdout=subprocess.PIPE, stderr=subprocess.STDOUT, text=True, timeout=900)
+        return name, q.returncode, q.stdout[-1500:]
+    with cf.ThreadPoolExecutor(3) as ex:
+        for name, rc, tail in ex.map(one, obligations):
+            if rc != 0 or "EXITCODE: OK" not in tail:
+                raise Infra("Apalache did not discharge '%s' for SeidAlloc:\n%s" % (name, tail))
+            res["apalache"].append(name)
+    log("SeidAlloc: inductive invariant discharged by Apalache (%d obligations, capacity 6, histories of any length); TLC: %d distinct states (capacity 5)" % (
+        len(res["apalache"]), res["tlc_distinct"]))
+    return res
+
+
+_check_l1_c04 = REGISTRY["C04"]
+
+
+def check_c04_full(pid, replay=None):
+    if replay:
+        return _check_l1_c04(pid, replay)
+    proof = alloc_proof()
+    rc = _check_l1_c04(pid, None)
+    p = os.path.join(vlib.VERIF, "evidence", pid + ".json")
+    with open(p) as fh:
+        ev = json.load(fh)
+    ev["coverage"]["allocator_inductive_invariant"] = proof
+    ev.setdefault("trusted_base", [])
+    with open(p, "w") as fh:
+        json.dump(ev, fh, indent=1)
+    return rc
+
+
+REGISTRY["C04"] = check_c04_full
+
 _check_l1_c01 = REGISTRY["C01"]
 
 
@@ -1279,6 +1332,40 @@ def check_c01_full(pid, replay=None):
 
 
 REGISTRY["C01"] = check_c01_full
+
+_check_c14_pure = REGISTRY["C14"]
+
+
+def check_c14_full(pid, replay=None):
+    """the encoder as a function (reference G-PDU, TLC-enumerated vectors) + the packets the full stack really re-injects
+    (Gtp5g.WritePacket on release), read at the simulated gNB sockets by an independent decoder (MonL2!VGpdu)"""
+    if replay:
+        with open(replay) as fh:
+            doc = json.load(fh)
+        if doc.get("note", "").startswith("L2"):
+            L2_PLAN["C14"] = L2_PLAN["C13"]
+            return check_l2(pid, replay)
+        return _check_c14_pure(pid, replay)
+    rc = _check_c14_pure(pid, None)
+    thorough = vlib.tier() == "thorough"
+    mc, scripts, rnd, viols, st = l2_part(pid, "Buffer", 5 if thorough else 4, "buffering", 1500 if thorough else 120, 600 if thorough else 40)
+    n = report_violations(pid, viols, st["crashes"], "L2 family Buffer")
+    if st["crashes"] and not n:
+        raise Infra("L2 executor died: %s" % st["crashes"][0]["tail"][-1500:])
+    p = os.path.join(vlib.VERIF, "evidence", pid + ".json")
+    with open(p) as fh:
+        ev = json.load(fh)
+    ev["coverage"].update({"l2_states": mc["distinct"], "l2_transitions": mc["generated"], "l2_traces_validated_against_impl": st["traces"],
+                           "l2_events_executed_on_impl": st["events"],
+                           "l2_monitor": "MonL2!VGpdu: every G-PDU read at the simulated gNB sockets (well-formed by its flags, T-PDU = a packet handed up, PDU Session Container / QFI of the flow)"})
+    ev["coverage"]["traces_validated_against_impl"] = ev["coverage"].get("traces_validated_against_impl", 0) + st["traces"]
+    ev["violations"] = ev.get("violations", 0) + n
+    with open(p, "w") as fh:
+        json.dump(ev, fh, indent=1)
+    return 1 if (rc or n) else 0
+
+
+REGISTRY["C14"] = check_c14_full
 
 
 # ============================================================================================== C07 robustness
